@@ -3,6 +3,7 @@ package rules
 import (
 	"fmt"
 	"go/token"
+	"go/types"
 	"sort"
 	"strings"
 
@@ -244,6 +245,74 @@ func runC16(c *core.Ctx) error {
 	if n3 == 0 {
 		r3.Undecided("Resolve:find", c.Pos(resolve.Pos()), "Resolve does not call find")
 	}
+	// the spelling is decided by the first byte: a pointer that starts with '/' is a plain pointer whatever else it
+	// contains ('#' is an ordinary character of a member name there), so nothing searches ptr for '#' or parses it as
+	// a URL unless the "starts with '/'" test has failed
+	{
+		ptr := resolve.Params[0]
+		var plainFalse []*ssa.BasicBlock
+		for _, b := range resolve.Blocks {
+			for _, in := range b.Instrs {
+				switch x := in.(type) {
+				case *ssa.BinOp:
+					if x.Op != token.EQL && x.Op != token.NEQ {
+						continue
+					}
+					idx, isIdx := x.X.(*ssa.Index)
+					k, isK := core.ConstInt(x.Y)
+					if isIdx && isK && k == '/' && idx.X == ssa.Value(ptr) {
+						if i0, ok := core.ConstInt(idx.Index); ok && i0 == 0 {
+							plainFalse = append(plainFalse, core.EdgeBlocks(x, x.Op == token.NEQ)...)
+						}
+					}
+				case *ssa.Call:
+					if core.IsCallTo(x.Common(), "strings", "HasPrefix") && x.Common().Args[0] == ssa.Value(ptr) {
+						if cs, ok := core.ConstString(x.Common().Args[1]); ok && cs == "/" {
+							plainFalse = append(plainFalse, core.EdgeBlocks(x, false)...)
+						}
+					}
+				}
+			}
+		}
+		notPlain := func(b *ssa.BasicBlock) bool {
+			for _, pf := range plainFalse {
+				if pf == b || pf.Dominates(b) {
+					return true
+				}
+			}
+			return false
+		}
+		nSearch := 0
+		for _, call := range core.Calls(resolve) {
+			cc := call.Common()
+			name := core.CalleeName(cc)
+			searches := false
+			switch name {
+			case "strings.Cut", "strings.Index", "strings.IndexByte", "strings.IndexRune", "strings.Contains", "strings.ContainsRune", "strings.LastIndex", "strings.LastIndexByte",
+				"strings.Split", "strings.SplitN", "strings.IndexAny", "strings.ContainsAny":
+				if len(cc.Args) >= 2 && cc.Args[0] == ssa.Value(ptr) {
+					if cs, ok := core.ConstString(cc.Args[1]); ok && strings.Contains(cs, "#") {
+						searches = true
+					}
+					if k, ok := core.ConstInt(cc.Args[1]); ok && k == '#' {
+						searches = true
+					}
+				}
+			case "net/url.Parse", "net/url.ParseRequestURI":
+				searches = len(cc.Args) >= 1 && cc.Args[0] == ssa.Value(ptr)
+			}
+			if !searches {
+				continue
+			}
+			nSearch++
+			if notPlain(call.Block()) {
+				r3.Pass(fmt.Sprintf("Resolve: %s at %s runs only after the pointer was found not to start with '/'", core.ShortPkg(name), c.Pos(call.Pos())))
+			} else {
+				r3.Fail("Resolve:fragment-search-before-plain-test", c.Pos(call.Pos()), fmt.Sprintf("Resolve looks for a fragment in the pointer (%s) before it has established that the pointer does not start with '/': in a plain JSON Pointer '#' is an ordinary character of a member name, \"/a#/b\" designates member \"b\" of member \"a#\" and not the node \"/b\" of the document", core.ShortPkg(name)))
+			}
+		}
+		_ = nSearch
+	}
 
 	// ---- R16.4
 	checkFindKey(c, r4, findKey)
@@ -326,6 +395,14 @@ func runC16(c *core.Ctx) error {
 					for _, call := range core.Calls(fn) {
 						if core.IsCallTo(call.Common(), pkgJP, "Resolve") {
 							nCalls++
+							// the spelling of a pointer ("#…" percent-encoded, "/…" plain) is a property of the whole
+							// reference: a piece cut out of a reference (a substring, the result of Cut / Split / Trim)
+							// that starts with '/' is read as the plain spelling and its percent escapes stay undecoded
+							if via := cutOutOfString(call.Common().Args[0], 0); via != "" {
+								r6.Fail("resolve-piece:"+fnKeyFull(fn), c.Pos(call.Pos()), fmt.Sprintf("%s hands jsonpointer.Resolve a piece of a reference (%s) instead of the reference: the piece of a \"#/a/b%%25c\" reference that starts at a '/' is taken for the plain spelling and %%25 is not decoded, so the member \"b%%25c\" is looked up instead of \"b%%c\"", fn.Name(), via))
+							} else {
+								r6.Pass(fmt.Sprintf("%s: jsonpointer.Resolve receives a whole reference", fnKeyFull(fn)))
+							}
 						}
 					}
 				}
@@ -654,4 +731,41 @@ func wholeRemainderOfParam(v ssa.Value, depth int) bool {
 		return nRet > 0
 	}
 	return false
+}
+
+// cutOutOfString: v is a substring of another string value or the result of a cutting function applied to one.
+func cutOutOfString(v ssa.Value, d int) string {
+	if d > 5 {
+		return ""
+	}
+	switch x := v.(type) {
+	case *ssa.Slice:
+		if bt, ok := x.X.Type().Underlying().(*types.Basic); ok && bt.Info()&types.IsString != 0 {
+			return "a substring"
+		}
+	case *ssa.Call:
+		switch n := core.CalleeName(x.Common()); n {
+		case "strings.TrimPrefix", "strings.TrimSuffix", "strings.TrimLeft", "strings.TrimRight", "strings.Trim", "strings.Cut", "strings.CutPrefix", "strings.CutSuffix",
+			"strings.Split", "strings.SplitN", "strings.SplitAfter", "strings.SplitAfterN", "path.Base", "path.Dir":
+			return n
+		}
+	case *ssa.Extract:
+		return cutOutOfString(x.Tuple, d+1)
+	case *ssa.Phi:
+		for _, e := range x.Edges {
+			if via := cutOutOfString(e, d+1); via != "" {
+				return via
+			}
+		}
+	case *ssa.UnOp:
+		if x.Op == token.MUL {
+			if ia, ok := x.X.(*ssa.IndexAddr); ok {
+				// element of a split result
+				if ld, ok := ia.X.(*ssa.Call); ok {
+					return cutOutOfString(ld, d+1)
+				}
+			}
+		}
+	}
+	return ""
 }
